@@ -361,6 +361,50 @@ func runC20(c *Ctx) {
 		c.floor("C20-R8", 2)
 	}
 
+	// R9: timers of the background sweep take a positive interval
+	c.rule("C20-R9", "PAN: every operation returns for every configuration: time.NewTicker / time.Tick panic on a non-positive interval, so in pkg/cache their argument is a positive constant or a value established positive on a dominating edge (a sweep interval derived from a TTL that may be zero, negative or one nanosecond ends the process from the janitor goroutine right after the constructor returned)")
+	{
+		n := 0
+		for _, fn := range c.srcFuncs(cachePkg) {
+			k := 0
+			eachInstr(fn, func(_ *ssa.BasicBlock, _ int, ins ssa.Instruction) {
+				cl, ok := ins.(*ssa.Call)
+				if !ok || (callName(cl) != "time.NewTicker" && callName(cl) != "time.Tick") {
+					return
+				}
+				k++
+				n++
+				arg := cl.Call.Args[0]
+				okPos := false
+				if v, isK := constInt(arg); isK && v > 0 {
+					okPos = true
+				}
+				if !okPos {
+					q := &pathQuery{fn: fn, target: func(x ssa.Instruction) bool { return x == ins }, cutEdge: func(b *ssa.BasicBlock, si int) bool {
+						iff := ifOf(b)
+						if iff == nil {
+							return false
+						}
+						bo, ok := iff.Cond.(*ssa.BinOp)
+						if !ok || !sameVal(bo.X, arg) {
+							return false
+						}
+						v, isK := constInt(bo.Y)
+						if !isK || v < 0 {
+							return false
+						}
+						return (bo.Op == token.GTR && si == 0) || (bo.Op == token.LEQ && si == 1)
+					}}
+					hit, _ := q.fromEntry()
+					okPos = hit == nil
+				}
+				c.ob("C20-R9", fnKey(fn)+"#ticker-interval-positive-"+itoa(k), cl.Pos(), okPos, "the interval handed to "+short(callName(cl))+" is not a positive constant and not established positive: a configuration that makes it zero or negative (a sweep interval derived from a tiny or absent TTL) panics in the background goroutine and ends the process")
+			})
+		}
+		c.Sites["C20-R9#tickers"] = n
+		c.ob("C20-R9", cachePkg+"#tickers-examined", token.NoPos, true, "")
+	}
+
 	// R5: advisory — callbacks invoked while holding the lock
 	c.rule("C20-R5", "advisory: calls through function-valued fields (onEvict) while LRUCache.mu is held are listed (re-entrancy deadlock if the callback touches the cache); never a violation")
 	for _, fn := range c.srcFuncs(cachePkg) {
